@@ -298,6 +298,82 @@ impl Mmapper for ChunkStateMmapper {
     }
 }
 
+/// Verification hooks (only with `--cfg mmtk_verif`): a private [`ChunkStateMmapper`] instance driven
+/// through the [`Mmapper`] trait, plus a read-only accessor of the recorded chunk state.
+#[cfg(mmtk_verif)]
+pub mod verif_hooks {
+    use super::*;
+
+    /// A private `ChunkStateMmapper` (not the global `MMAPPER`).
+    pub struct VerifMmapper(ChunkStateMmapper);
+
+    impl Default for VerifMmapper {
+        fn default() -> Self {
+            Self::new()
+        }
+    }
+
+    impl VerifMmapper {
+        pub fn new() -> Self {
+            VerifMmapper(ChunkStateMmapper::new())
+        }
+        fn dynamic(&self) -> &dyn Mmapper {
+            &self.0
+        }
+        pub fn log_granularity(&self) -> u8 {
+            self.dynamic().log_granularity()
+        }
+        pub fn log_mappable_bytes(&self) -> u8 {
+            self.dynamic().log_mappable_bytes()
+        }
+        /// `Mmapper::quarantine_address_range`
+        pub fn quarantine(&self, start: Address, pages: usize) -> Result<(), String> {
+            self.dynamic()
+                .quarantine_address_range(
+                    start,
+                    pages,
+                    HugePageSupport::No,
+                    &MmapAnnotation::Misc { name: "verif" },
+                )
+                .map_err(|e| e.to_string())
+        }
+        /// `Mmapper::ensure_mapped` (read-write protection)
+        pub fn ensure_mapped(&self, start: Address, pages: usize) -> Result<(), String> {
+            self.dynamic()
+                .ensure_mapped(
+                    start,
+                    pages,
+                    HugePageSupport::No,
+                    MmapProtection::ReadWrite,
+                    &MmapAnnotation::Misc { name: "verif" },
+                )
+                .map_err(|e| e.to_string())
+        }
+        /// `Mmapper::mark_as_mapped`
+        pub fn mark_as_mapped(&self, start: Address, bytes: usize) {
+            self.dynamic().mark_as_mapped(start, bytes)
+        }
+        /// `Mmapper::is_mapped_address`
+        pub fn is_mapped_address(&self, addr: Address) -> bool {
+            self.dynamic().is_mapped_address(addr)
+        }
+        /// Log of the slab size of the two-level state storage (64-bit targets).
+        #[cfg(target_pointer_width = "64")]
+        pub fn log_slab_bytes() -> usize {
+            two_level_storage::VERIF_LOG_MMAP_SLAB_BYTES
+        }
+        /// The recorded state of the chunk starting at `chunk` (must be chunk-aligned):
+        /// 0 = Unmapped, 1 = Quarantined, 2 = Mapped.
+        pub fn state(&self, chunk: Address) -> u8 {
+            match self.0.storage.get_state(chunk) {
+                MapState::Unmapped => 0,
+                MapState::Quarantined => 1,
+                MapState::Mapped => 2,
+            }
+        }
+    }
+}
+
 /// The mmap state of a mmap chunk.
 #[repr(u8)]
 #[derive(Copy, Clone, PartialEq, Eq, Debug, NoUninit)]
